@@ -2,7 +2,7 @@
 From Coq Require Import Ascii String List Bool Arith ZArith NArith.
 From PTBase Require Import Exn PyStr PyNum PyVal Fmt FixedFormat.
 From Gen Require Import GenTables GenSections.
-From P Require Import Comb Obj Fields Idem Sections SectionsB Rec SecRocks SecMesh SecGener SecMisc SecParam SecHist SecSel T2DataIO Whole Example.
+From P Require Import Comb Obj Fields Idem Sections SectionsB Rec SecRocks SecMesh SecGener SecMisc SecParam SecHist SecSel SecShort SecMeshm T2DataIO Whole Xp Example.
 Import ListNotations.
 Open Scope string_scope.
 
@@ -137,25 +137,56 @@ Theorem indom_read_write : forall T d body, write_indom T d = Ok (kw "INDOM" :: 
 Proof. exact indom_roundtrip. Qed.
 Print Assumptions indom_read_write.
 
-(** ** every covered section through the keyword dispatch: the reader consumes exactly the
-    writer's lines (PARAM: plus the next keyword line, handed back as look-ahead) *)
+Theorem short_read_write : forall T d s lines, short_table_ok T = true -> short d = Some s -> write_short d = Ok lines ->
+  forall d0, short d0 = None -> wf_short d0 s = true ->
+  exists f body, lines = header_of f :: body /\
+    forall line rest, line = header_of f \/ line = padstring (header_of f) ->
+    read_short T d0 line (body ++ rest)%list = Ok (set_short d0 (Some (canon_short s)), rest).
+Proof. exact short_roundtrip. Qed.
+Print Assumptions short_read_write.
+Theorem meshmaker_rz2d_read_write : forall T subs, rz_table_ok T = true -> wf_rz T subs = true ->
+  forall lss, mapM (write_rz2d_sub T) subs = Ok lss ->
+  forall fuel acc rest, (length subs <= fuel)%nat ->
+  read_rz2d T fuel acc (concat lss ++ rest)%list = Ok ((rev acc ++ canon_rz T subs)%list, rest).
+Proof. exact rz2d_roundtrip. Qed.
+Print Assumptions meshmaker_rz2d_read_write.
+Theorem meshmaker_xyz_read_write : forall T subs, xyz_table_ok T = true -> forallb (wf_xyz_sub T) subs = true ->
+  forall lss, mapM (write_xyz_sub T) subs = Ok lss ->
+  forall fuel acc rest, (length subs < fuel)%nat ->
+  read_xyz T fuel acc (concat lss ++ [nl] :: rest)%list = Ok ((rev acc ++ map (canon_xyz_sub T) subs)%list, rest).
+Proof. exact xyz_subs_roundtrip. Qed.
+Print Assumptions meshmaker_xyz_read_write.
+Theorem meshmaker_read_write : forall T d body, meshm_table_ok T = true -> write_meshmaker T d = Ok (kw "MESHMAKER" :: body) ->
+  forallb (wf_mm T) (meshmaker d) = true ->
+  forall d0 rest, meshmaker d0 = [] ->
+  read_meshmaker T d0 (body ++ rest)%list = Ok (set_meshmaker d0 (map (canon_mm T) (meshmaker d)), rest).
+Proof. exact meshmaker_roundtrip. Qed.
+Print Assumptions meshmaker_read_write.
+
+(** ** every section kind through the keyword dispatch: the writer's first line is the keyword line;
+    given that line (as read, or padded when it was the PARAM look-ahead) the reader consumes exactly
+    the writer's lines (PARAM: plus the next keyword line, handed back as look-ahead) *)
 Theorem section_read_write : forall k d d0 lines, In k covered -> wsec d k = Ok lines -> secwf k d d0 = true ->
-  exists body, lines = kw k :: body /\
-    if plain k then forall line rest, dispatch d0 k line (body ++ rest)%list = Ok (supd k d d0, None, rest)
+  exists l0 body, lines = l0 :: body /\ kwline k l0 /\
+    if plain k then forall line rest, line = l0 \/ line = padstring l0 ->
+                    dispatch d0 k line (body ++ rest)%list = Ok (supd k d d0, None, rest)
     else forall line nextl rest, next_ok0 nextl = true ->
          dispatch d0 k line (body ++ nextl :: rest)%list = Ok (supd k d d0, Some (padstring nextl), rest).
 Proof. exact section_step. Qed.
 Print Assumptions section_read_write.
+Theorem all_section_kinds_covered : forall k, In k t2data_sections <-> In k covered.
+Proof. exact covered_all. Qed.
+Print Assumptions all_section_kinds_covered.
 
-(** ** THE round trip of the main file: any subset and order [ks] of the 21 covered section kinds
-    (all but SHORT and MESHMAKER) *)
-Theorem t2data_read_write_partial : forall d ks ls,
+(** ** THE round trip of the main file (mesh in the file, no extra precision): any subset and order
+    [ks] of the 23 section kinds *)
+Theorem t2data_read_write : forall d ks ls,
   write_lines d = Ok ls ->
   update_sections d = sections d -> sections d = map s2l ks -> xprec d = [] -> is_end (end_keyword d) = true ->
   title_ok d = true -> chain_ok d ks (start_state d) = true ->
   read_lines ls = Ok (set_end_keyword (final d ks (start_state d)) (end_keyword d)).
 Proof. exact read_write_main. Qed.
-Print Assumptions t2data_read_write_partial.
+Print Assumptions t2data_read_write.
 (** the hypotheses are met by two concrete objects, one per flavour, in a non-standard order *)
 Theorem t2data_read_write_hypotheses_met :
   hyps_ok example_autough2 example_autough2_order = true /\ hyps_ok example_tough2 example_tough2_order = true.
@@ -179,7 +210,7 @@ Proof. exact record_rewrite_fixpoint. Qed.
 Print Assumptions record_write_fixpoint_partial.
 
 (** ** the same with the mesh in a separate ASCII file: main file, then ELEME and CONNE from the MESH file *)
-Theorem t2data_read_write_meshfile_partial : forall d ks d' fs,
+Theorem t2data_read_write_meshfile : forall d ks d' fs,
   write_files (mk_wcfg 1 None None) d = Ok (d', fs) ->
   update_sections d = sections d -> main_secs d = map s2l ks -> xprec d = [] -> is_end (end_keyword d) = true ->
   title_ok d = true -> chain_ok d ks (start_state d) = true -> forallb (fun k => negb (k =? "ELEME")) ks = true ->
@@ -187,8 +218,38 @@ Theorem t2data_read_write_meshfile_partial : forall d ks d' fs,
   forallb (wf_block T0 (rocks d2)) (blocks d) = true -> forallb (wf_conn T0 (canon_blocks T0 (blocks d))) (conns d) = true ->
   read_files fs = Ok (mesh_state d d2).
 Proof. exact read_write_meshfile. Qed.
-Print Assumptions t2data_read_write_meshfile_partial.
+Print Assumptions t2data_read_write_meshfile.
 Theorem t2data_read_write_meshfile_hypotheses_met :
-  hyps_mesh_ok example_autough2 (no_mesh example_autough2_order) = true /\ hyps_mesh_ok example_tough2 (no_mesh example_tough2_order) = true.
+  hyps_mesh_ok (drop_short example_autough2) (no_mesh example_autough2_order) = true /\
+  hyps_mesh_ok (drop_short example_tough2) (no_mesh example_tough2_order) = true.
 Proof. exact (conj example_autough2_mesh_ok example_tough2_mesh_ok). Qed.
 Print Assumptions t2data_read_write_meshfile_hypotheses_met.
+
+(** ** the extra-precision companion (.pdat) holding the sections [xs], echoed in the main file (b = true) or
+    not: SIMUL reads the companion first (with the extra-precision table), the main file's other sections
+    follow in any legal order, echoed ones are skipped, the (repaired) reader re-derives the echo flag *)
+Theorem extra_precision_section_read_write : forall k d d0 lines, In k xp_kinds -> xpresent k d = true -> wsec1 d k = Ok lines ->
+  secwf1 k d d0 = true ->
+  exists body, lines = kw k :: body /\
+    forall line rest, read_method T1 d0 (rname1 k) line (body ++ rest)%list = Ok (supd1 k d d0, None, rest).
+Proof. exact xp_section_step. Qed.
+Print Assumptions extra_precision_section_read_write.
+Theorem companion_file_read : forall d xs d1 pd, write_sections T1 xp_write_fn_names d (map s2l xs) = Ok pd -> xchain_ok d xs d1 = true ->
+  sections d1 = [] -> xecho d1 = true -> read_xp d1 pd = Ok (xp_state d xs d1).
+Proof. exact read_xp_pdat. Qed.
+Print Assumptions companion_file_read.
+Theorem t2data_read_write_extra_precision : forall d xs b ks d' fs,
+  write_files (mk_wcfg 0 (Some (map s2l xs)) (Some b)) d = Ok (d', fs) ->
+  update_sections d = sections d -> xprec d = [] -> xecho d = true -> autough2 d = true -> xs <> [] ->
+  msecs d (map s2l xs) b = map s2l ("SIMUL" :: ks) -> is_end (end_keyword d) = true -> title_ok d = true ->
+  secwf "SIMUL" d (start_state d) = true ->
+  xchain_ok d xs (simul_state d) = true ->
+  chain_okX d ks (push "SIMUL" (xp_state d xs (simul_state d))) = true ->
+  read_files fs = Ok (reinfer (set_end_keyword (finalX d ks (push "SIMUL" (xp_state d xs (simul_state d)))) (end_keyword d))).
+Proof. exact read_write_xp. Qed.
+Print Assumptions t2data_read_write_extra_precision.
+Theorem t2data_read_write_extra_precision_hypotheses_met :
+  hyps_xp_ok example_autough2 all_xp false (no_xp example_autough2_order) = true /\
+  hyps_xp_ok example_autough2 all_xp true (no_simul example_autough2_order) = true.
+Proof. exact (conj example_xp_ok example_xp_echo_ok). Qed.
+Print Assumptions t2data_read_write_extra_precision_hypotheses_met.
